@@ -183,15 +183,15 @@ package dbft
 //@   modifies nothing
 //@ func (*Context).F
 //@   requires nvalid()
-//@   ensures [C06,C01,C02,C04] result == specF(len(c.Validators))
+//@   ensures [C06,C01,C02,C04,C07] result == specF(len(c.Validators))
 //@   modifies nothing
 //@ func (*Context).M
 //@   requires nvalid()
-//@   ensures [C06,C01,C02,C04] result == specM(len(c.Validators))
+//@   ensures [C06,C01,C02,C04,C07] result == specM(len(c.Validators))
 //@   modifies nothing
 //@ func (*Context).GetPrimaryIndex
 //@   requires nvalid()
-//@   ensures [C06] @formula result == emod(c.BlockIndex - viewNumber, len(c.Validators))
+//@   ensures [C06,C04] @formula result == emod(c.BlockIndex - viewNumber, len(c.Validators))
 //@   ensures [C06] @range 0 <= result && result < len(c.Validators)
 //@   modifies nothing
 
@@ -344,18 +344,18 @@ package dbft
 //@ bundle INV
 //@   ensures [C03,C01] @said said()
 //@   ensures [C11] @wf wf()
-//@   ensures [C11,C02,C04] @slot slot()
+//@   ensures [C11,C02,C04,C07,C03] @slot slot()
 //@   ensures [C04] @prep prep()
 //@   ensures [C02,C15] @prop prop()
 //@   ensures [C02,C01] @verc verc()
-//@   ensures [C02,C01] @tip tip()
+//@   ensures [C02,C01,C05] @tip tip()
 //@   ensures [C02] @complete complete()
 
 //@ bundle U
 //@   requires @wf wf() && slot()
 //@   requires [C03,C01] @said said()
 //@   ensures  [C03,C01] @lock implies(old(locked()), self.ViewNumber == old(self.ViewNumber) && implies(old(gCommit) != nil, gCommit == old(gCommit)) && implies(old(gPreCommit) != nil, gPreCommit == old(gPreCommit)))
-//@   ensures  [C03] @sameViewSameWord implies(self.ViewNumber == old(self.ViewNumber) && old(gPrep) != nil, gPrep == old(gPrep))
+//@   ensures  [C03,C01] @sameViewSameWord implies(self.ViewNumber == old(self.ViewNumber) && old(gPrep) != nil, gPrep == old(gPrep))
 //@   requires [C04] @prep prep()
 //@   requires [C02,C15] @prop prop()
 //@   requires [C02,C01] @verc verc()
@@ -384,7 +384,7 @@ package dbft
 //@   ensures [C11] @seenMono seenMono()
 //@   ensures [C12] @txKept implies(self.ViewNumber == old(self.ViewNumber), forallOf(Transaction, t, implies(old(has(self.Transactions, t.Hash())), has(self.Transactions, t.Hash()))))
 //@   ensures  [C03,C01] @lock implies(old(locked()), self.ViewNumber == old(self.ViewNumber) && implies(old(gCommit) != nil, gCommit == old(gCommit)) && implies(old(gPreCommit) != nil, gPreCommit == old(gPreCommit)))
-//@   ensures  [C03] @sameViewSameWord implies(self.ViewNumber == old(self.ViewNumber) && old(gPrep) != nil, gPrep == old(gPrep))
+//@   ensures  [C03,C01] @sameViewSameWord implies(self.ViewNumber == old(self.ViewNumber) && old(gPrep) != nil, gPrep == old(gPrep))
 //@   ensures sameHeight() && self.ViewNumber >= old(self.ViewNumber) && heapMono() && timerKept()
 
 // ---- more externs ----
@@ -444,7 +444,7 @@ package dbft
 
 //@ func emptyReusableSlice
 //@   requires n >= 0
-//@   ensures [C05,C11] @sizedAndEmpty len(result) == n && forall(k, 0, n, result[k] == nil)
+//@   ensures [C05,C11,C04,C02,C03] @sizedAndEmpty len(result) == n && forall(k, 0, n, result[k] == nil)
 //@   modifies nothing
 
 // C13: the "sent" predicates are the implicit watch-only filters of checkPreCommit, onChangeView, onTimeout, ...
@@ -481,14 +481,14 @@ package dbft
 // B6: at a new height the tables that feed recovery messages and the failed-node count start empty as well
 //@   ensures [C05] @historyCleared implies(view == 0, forall(i, 0, NN(), self.LastChangeViewPayloads[i] == nil && (self.LastSeenMessage[i] == nil || i == self.MyIndex)))
 //@   ensures [C05,C04,C12,C02,C01,C11,C15] @cleanProposal cleanProposal()
-//@   ensures [C05,C07] @cleanHeight implies(view == 0, !self.blockProcessed && !self.preBlockProcessed && self.lastBlockTimestamp == ts)
-//@   ensures [C05] @freshFromCallbacks implies(view == 0, sametable(self.Validators, gValidators) && self.timePerBlock == gTimePerBlock
+//@   ensures [C05,C07,C10,C01] @cleanHeight implies(view == 0, !self.blockProcessed && !self.preBlockProcessed && self.lastBlockTimestamp == ts)
+//@   ensures [C05,C02,C06] @freshFromCallbacks implies(view == 0, sametable(self.Validators, gValidators) && self.timePerBlock == gTimePerBlock
 //@        && implies(self.Config.MaxTimePerBlock != nil, self.maxTimePerBlock == gMaxTimePerBlock) && tip() && self.MyIndex == first(self.Config.GetKeyPair(self.Validators)))
 //@   ensures [C16,C05] @unsubscribed !self.txSubscriptionOn
 //@   ensures [C15,C05] @base self.lastBlockTimestamp == ts
 //@   ensures [C11] @seenMono implies(view > 0, seenMono())
 //@   ensures [C05,C07,C03,C01,C11] @keptWithinHeight implies(view > 0, sameHeight() && unchanged(self.CommitPayloads, self.PreCommitPayloads, self.preBlockProcessed, self.blockProcessed))
-//@   ensures [C05,C04,C02,C03,C11] @tablesCleared forall(i, 0, NN(), self.PreparationPayloads[i] == nil && self.ChangeViewPayloads[i] == nil) && implies(view == 0, forall(i, 0, NN(), self.CommitPayloads[i] == nil && self.PreCommitPayloads[i] == nil))
+//@   ensures [C05,C04,C02,C03,C11,C07,C01] @tablesCleared forall(i, 0, NN(), self.PreparationPayloads[i] == nil && self.ChangeViewPayloads[i] == nil) && implies(view == 0, forall(i, 0, NN(), self.CommitPayloads[i] == nil && self.PreCommitPayloads[i] == nil))
 //@   ghost gPrep = nil
 //@   ghost gCommit = ite(view == 0, nil, gCommit)
 //@   ghost gPreCommit = ite(view == 0, nil, gPreCommit)
@@ -629,7 +629,7 @@ package dbft
 //@   requires self.MyIndex != self.PrimaryIndex
 //@   requires [C04] @evidence hasAllTx() && gVerified != nil && (gVerified == self.block || gVerified == self.preBlock)
 //@   ensures [C11] @wf wf()
-//@   ensures [C11,C02,C04] @slot slot()
+//@   ensures [C11,C02,C04,C07,C03] @slot slot()
 //@   ensures [C04] @prep prep()
 //@   ensures forall(i, 0, NN(), implies(i != self.MyIndex, self.PreparationPayloads[i] == old(self.PreparationPayloads[i])))
 //@   ensures gBroadcasts == old(gBroadcasts) + 1
@@ -644,7 +644,7 @@ package dbft
 //@   requires [C07] @enabled amev()
 //@   requires [C04] @evidence rsor() && hasAllTx() && prepCount() >= specM(NN()) && prep()
 //@   ensures [C11] @wf wf()
-//@   ensures [C11,C02,C04] @slot slot()
+//@   ensures [C11,C02,C04,C07,C03] @slot slot()
 //@   requires [C03] @said said()
 //@   ensures [C03,C07] @said said()
 //@   ensures [C03] @lock implies(old(gPreCommit) != nil, gPreCommit == old(gPreCommit))
@@ -662,7 +662,7 @@ package dbft
 // a Commit under anti-MEV goes out only in the commit phase, wherever it is sent from
 
 //@   ensures [C11] @wf wf()
-//@   ensures [C11,C02,C04] @slot slot()
+//@   ensures [C11,C02,C04,C07,C03] @slot slot()
 //@   ensures [C02,C01] @verc verc()
 //@   requires [C03] @said said()
 //@   ensures [C03] @said said()
